@@ -531,8 +531,10 @@ pub fn run(rep: &Report) -> i32 {
     // S3: sibling blocks with nothing bound between them, under every visibility prefix and in three contexts
     let s3_start = structures.len();
     let prefixes: Vec<Vec<S>> = vec![vec![], vec![S::Let(0, Rhs::Fresh)], vec![S::Let(1, Rhs::Fresh)], vec![S::LetPair(0, 1, Rhs::Fresh, Rhs::Fresh)]];
-    let (lb, rb) = if quick { (1, 1) } else { (2, 2) };
+    // statement budgets of the (left, right) block: quick (1, 1); thorough (2, 1) and (1, 2)
+    let budgets: &[(usize, usize)] = if quick { &[(1, 1)] } else { &[(2, 1), (1, 2)] };
     for pre in &prefixes {
+      for &(lb, rb) in budgets {
         let vis = pre.iter().fold(0u8, |v, s| vis_after(s, v));
         for l in seqs(lb, 1, vis, false, 0) {
             let vl = l.iter().fold(vis, |v, s| vis_after(s, v));
@@ -562,6 +564,7 @@ pub fn run(rep: &Report) -> i32 {
                 }
             }
         }
+      }
     }
     let s3 = structures.len() - s3_start;
     rep.set("bounds", json!({"S3_sibling_block_structures": s3, "S2_statement_budget": budget, "S2_structures": s2, "S2_deep_structures_without_calls": s2deep, "S2_deep_stride": if quick { 4 } else { 1 }, "S1_patterns": n_pats, "S1_contexts": 8, "nesting": 3, "names": NAMES}));
